@@ -43,8 +43,8 @@ OAIName(n) == n \o "OAIGen"
 HasGen(k, gen) == \E i \in DOMAIN k : k[i] \in gen          \* strings.Contains(key, "OAIGen")
 
 \* importExternalReferences sorts the remote $refs of a round by their normalized string, i.e. by file location first: the rank of the
-\* documents of the family under the layout the harness gives them (api/sub/a.json < api/sub/common/c.json < api/sub/deep/a.json <
-\* api/sub/deep/b.json < common/c.json); within one document the order of the fragments is left open
+\* documents of the family under the layout the harness gives them (api/sub/a.json < api/sub/common/root.json < api/sub/deep/a.json <
+\* api/sub/deep/b.json < common/root.json); within one document the order of the fragments is left open
 DocRank(d) == CASE d = "aux1" -> 1 [] d = "aux5" -> 2 [] d = "aux4" -> 3 [] d = "aux2" -> 4 [] d = "aux3" -> 5 [] OTHER -> 6
 NextImports(todo) == { t \in todo : \A u \in todo : DocRank(t[1]) <= DocRank(u[1]) }
 
